@@ -134,6 +134,82 @@ theorem isAtomic_iff (s : Str) :
       simp only [↓reduceIte]
       exact head?_filter_isSome _ _ m hm (by simp [hr, atEnd])
 
+/-! ### split on everything else; uniqueness of the decomposition -/
+
+/-- a table atom has exactly one reading as prefix, unit and power -/
+theorem atom_decomposition_unique (p u w p' u' w' : Str) (hp : p ∈ optPrefixes) (hu : u ∈ units)
+    (hw : PowerText w) (hp' : p' ∈ optPrefixes) (hu' : u' ∈ units) (hw' : PowerText w')
+    (h : p ++ u ++ w = p' ++ u' ++ w') : p = p' ∧ u = u' ∧ w = w' := by
+  have h1 := split_generic p u w hp hu hw
+  have h2 := split_generic p' u' w' hp' hu' hw'
+  rw [h, h2] at h1
+  simp only [Prod.mk.injEq] at h1
+  exact ⟨h1.1.symm, h1.2.1.symm, (powerText_drop_inj w' w hw' hw h1.2.2).symm⟩
+
+theorem stepPiece_pre_sub (m m' : M) (h : m' ∈ stepPiece .pre m) : m' ∈ stepPiece .optPre m := by
+  simp only [stepPiece, List.mem_append, List.mem_map] at h ⊢
+  exact Or.inl h
+
+theorem stepPiece_pow_sub (m m' : M) (h : m' ∈ stepPiece .pow m) : m' ∈ stepPiece .optPow m := by
+  simp only [stepPiece, List.mem_append, List.mem_map] at h ⊢
+  exact Or.inl h
+
+theorem stepPiece_optPre_self (m : M) : m ∈ stepPiece .optPre m := by simp [stepPiece]
+theorem stepPiece_optPow_self (m : M) : m ∈ stepPiece .optPow m := by simp [stepPiece]
+
+/-- whatever one of the three patterns of `split` matches to the end, the atomic pattern matches too -/
+theorem split_shapes_atomic (s : Str) (sh : Shape) (hsh : sh = pupShape ∨ sh = unitPowShape ∨ sh = preUnitShape)
+    (m : M) (h : reMatch sh s = some m) : isAtomic s = true := by
+  have hat : atomicShape = { pieces := [.optPre, .unit, .optPow], endAnchor := true } := rfl
+  have key : ∃ m' ∈ matchPieces [.optPre, .unit, .optPow] { rest := s }, atEnd m'.rest = true := by
+    rcases hsh with rfl | rfl | rfl
+    · have e : pupShape = { pieces := [.pre, .unit, .pow], endAnchor := true } := rfl
+      rw [e] at h
+      simp only [reMatch, ↓reduceIte] at h
+      have hm := List.mem_of_mem_head? h
+      obtain ⟨hmem, hend⟩ := List.mem_filter.mp hm
+      simp only [matchPieces, List.mem_flatMap, List.mem_singleton] at hmem
+      obtain ⟨m1, hm1, m2, hm2, m3, hm3, rfl⟩ := hmem
+      refine ⟨m, ?_, hend⟩
+      simp only [matchPieces, List.mem_flatMap, List.mem_singleton]
+      exact ⟨m1, stepPiece_pre_sub _ _ hm1, m2, hm2, m, stepPiece_pow_sub _ _ hm3, rfl⟩
+    · have e : unitPowShape = { pieces := [.unit, .pow], endAnchor := true } := rfl
+      rw [e] at h
+      simp only [reMatch, ↓reduceIte] at h
+      have hm := List.mem_of_mem_head? h
+      obtain ⟨hmem, hend⟩ := List.mem_filter.mp hm
+      simp only [matchPieces, List.mem_flatMap, List.mem_singleton] at hmem
+      obtain ⟨m2, hm2, m3, hm3, rfl⟩ := hmem
+      refine ⟨m, ?_, hend⟩
+      simp only [matchPieces, List.mem_flatMap, List.mem_singleton]
+      exact ⟨_, stepPiece_optPre_self _, m2, hm2, m, stepPiece_pow_sub _ _ hm3, rfl⟩
+    · have e : preUnitShape = { pieces := [.pre, .unit], endAnchor := true } := rfl
+      rw [e] at h
+      simp only [reMatch, ↓reduceIte] at h
+      have hm := List.mem_of_mem_head? h
+      obtain ⟨hmem, hend⟩ := List.mem_filter.mp hm
+      simp only [matchPieces, List.mem_flatMap, List.mem_singleton] at hmem
+      obtain ⟨m1, hm1, m2, hm2, rfl⟩ := hmem
+      refine ⟨m, ?_, hend⟩
+      simp only [matchPieces, List.mem_flatMap, List.mem_singleton]
+      exact ⟨m1, stepPiece_pre_sub _ _ hm1, m, hm2, m, stepPiece_optPow_self _, rfl⟩
+  obtain ⟨m', hm', hend⟩ := key
+  unfold isAtomic reMatch
+  rw [hat]
+  simp only [↓reduceIte]
+  exact head?_filter_isSome _ _ m' hm' hend
+
+/-- a string that is not an atomic unit is returned whole, as the unit, without prefix and power -/
+theorem split_non_atomic (s : Str) (h : isAtomic s = false) : split s = ([], s, []) := by
+  have none_of : ∀ sh, (sh = pupShape ∨ sh = unitPowShape ∨ sh = preUnitShape) → reMatch sh s = none := by
+    intro sh hsh
+    cases hr : reMatch sh s with
+    | none => rfl
+    | some m => rw [split_shapes_atomic s sh hsh m hr] at h; cases h
+  unfold split
+  rw [none_of pupShape (Or.inl rfl), none_of unitPowShape (Or.inr (Or.inl rfl)),
+    none_of preUnitShape (Or.inr (Or.inr rfl))]
+
 /-! ### the compound recogniser is exact -/
 
 theorem sepM_cases (s : Str) (sr : Str × Str) (h : sr ∈ sepM s) :
